@@ -1,6 +1,6 @@
 From Coq Require Import ZArith List Bool Reals Lra.
 From Flocq Require Import Core BinarySingleNaN.
-Require Import GV.FloatBase GV.FloatLemmas GV.AngleM GV.GeonumM GV.CollM GV.OrderProofs GV.CollProofs GV.AngleProofs GV.NewProofs GV.CtorProofs GV.GeonumProofs GV.DistValue GV.SumProofs.
+Require Import GV.FloatBase GV.FloatLemmas GV.AngleM GV.GeonumM GV.CollM GV.OrderProofs GV.CollProofs GV.AngleProofs GV.NewProofs GV.CtorProofs GV.GeonumProofs GV.DistValue GV.SumProofs GV.TraitsM GV.TraitsProofs GV.BoundProofs GV.ClosureProofs GV.SumUpper GV.PiBounds GV.TrigProofs GV.DotValue GV.ProdProofs GV.DirProofs GV.FieldProofs GV.ConeProofs.
 Import ListNotations.
 Open Scope R_scope.
 Require Import GV.Properties.C17.
@@ -42,3 +42,15 @@ Check C17_total_value : forall c, fin (total_magnitude c) -> Forall (fun g => 0 
 Print Assumptions C17_total_value.
 Check C17_rsum_def : rsum [] = 0 /\ (forall g t, rsum (g :: t) = R_ (mag g) + rsum t) /\ eps = / 9007199254740992.
 Print Assumptions C17_rsum_def.
+Check C17_cone_pred_unfold : forall (L : libm) direction half g,
+  cone_pred L direction half g =
+    if feq (fmul (mag g) (mag direction)) zero then false
+    else fle (acosF L (fclamp (cone_signed_cos L direction g) (fneg one) one)) half.
+Print Assumptions C17_cone_pred_unfold.
+Check C17_cone_signed_cos : forall (L : libm) (u : R) direction g, cos_acc L u -> u <= / 1000 ->
+  canonp (rem (ang g)) -> canonp (rem (ang direction)) -> (0 <= blade (ang g))%Z -> (0 <= blade (ang direction))%Z ->
+  fin (dot_value L g direction) -> fin (cone_signed_cos L direction g) ->
+  bpow radix2 (-500) <= R_ (mag g) * R_ (mag direction) <= bpow radix2 500 ->
+  Rabs (R_ (cone_signed_cos L direction g) - cos (dir (ang direction) - dir (ang g)))
+    <= 21 / 10 * u + 201 / 1000000000000.
+Print Assumptions C17_cone_signed_cos.
